@@ -50,14 +50,24 @@ Example C39_witness_replay_hyps :
   t_iat w_old < secs (10030 * NS).
 Proof. vm_compute. repeat split; reflexivity. Qed.
 
-(* C39_dead_session_rejected_partial: each of the three ways of being dead occurs *)
+(* C39_dead_session_rejected: each way of being dead occurs *)
 Definition w_s_rev : st := mkst None None [(0, SNever)] [mkos 8 (Some 0) SRevoked (10030 * NS) 0].
 Definition w_s_prev : st := mkst None None [(0, SRevoked)] [mkos 8 (Some 0) (SExpires (99999 * NS)) (10030 * NS) 0].
+Definition w_s_pexp : st := mkst None None [(0, SExpires (10099 * NS))] [mkos 8 (Some 0) (SExpires (99999 * NS)) (10030 * NS) 0].
+Definition w_s_oexp : st := mkst None None [(0, SNever)] [mkos 8 (Some 0) (SExpires (10100 * NS)) (10030 * NS) 0].
 Definition w_s_win : st := mkst None (Some (10050 * NS)) [(0, SNever)] [mkos 8 (Some 0) (SExpires (99999 * NS)) (10030 * NS) 0].
 Example C39_witness_dead_session : dead w_s_rev w_new (10100 * NS).
 Proof. left. eexists. split; reflexivity. Qed.
+Example C39_witness_dead_session_expired : dead w_s_oexp w_new (10100 * NS).
+Proof. left. eexists. split; [reflexivity | vm_compute; reflexivity]. Qed.
 Example C39_witness_dead_parent : dead w_s_prev w_new (10100 * NS).
-Proof. right. left. eexists. exists 0. repeat split; reflexivity. Qed.
+Proof. right. left. eexists. exists 0, SRevoked. repeat split; reflexivity. Qed.
+Example C39_witness_dead_parent_expired : dead w_s_pexp w_new (10100 * NS) /\ lapsed w_s_pexp w_new (10100 * NS).
+Proof.
+  split.
+  - right. left. eexists. exists 0, (SExpires (10099 * NS)). repeat split; try reflexivity.
+  - eexists. exists 0, (10099 * NS). repeat split; try reflexivity. vm_compute. discriminate.
+Qed.
 Example C39_witness_dead_window : dead w_s_win w_new (10100 * NS).
 Proof. right. right. vm_compute. reflexivity. Qed.
 (* ... while the same token is accepted in the live state (the theorem is not about a model that refuses everything) *)
@@ -106,15 +116,23 @@ Definition w_case_bad : case :=
 Example C39_witness_case_bad : pcheck w_case_bad = false /\ known w_case_bad = false /\ agree w_case_bad = false.
 Proof. vm_compute. repeat split; reflexivity. Qed.
 
-(* K2 as a case: parent session 0 expires at 10400 s; the token is reported active at 10500 s *)
-Definition w_case_k2 : case :=
+(* former class K2 as a case: parent session 0 expires at 10400 s. The fixed server reports the
+   token inactive at 10500 s (agrees with the model, property holds) ... *)
+Definition w_obs_k2 : obs :=
+  ([(0, SExpires (10400 * NS))], [(1, Some 0, SExpires (10010 * NS + 1200 * NS), 10010 * NS, 0)]).
+Definition w_case_k2 (answer : res) : case :=
   CHist w_cf [(0, 1)] [(0, SExpires (10400 * NS))]
     [ (OCode (10000 * NS) 0 0 (Some 1) 1 [0], RUnit, ([(0, SExpires (10400 * NS))], []));
-      (OExch (10010 * NS) 0 true (Some 0) 1 (Some 0), RTok 1 [0] 10010 10910 11210 (Some 0),
-       ([(0, SExpires (10400 * NS))], [(1, Some 0, SExpires (10010 * NS + 1200 * NS), 10010 * NS, 0)]));
-      (OIntro (10500 * NS) 1 false, RIntro true [0],
-       ([(0, SExpires (10400 * NS))], [(1, Some 0, SExpires (10010 * NS + 1200 * NS), 10010 * NS, 0)])) ].
-Example C39_witness_case_k2 : agree w_case_k2 = true /\ pcheck w_case_k2 = false /\ known w_case_k2 = true.
+      (OExch (10010 * NS) 0 true (Some 0) 1 (Some 0), RTok 1 [0] 10010 10910 11210 (Some 0), w_obs_k2);
+      (OIntro (10500 * NS) 1 false, answer, w_obs_k2) ].
+Example C39_witness_case_k2_fixed :
+  agree (w_case_k2 (RIntro false [])) = true /\ pcheck (w_case_k2 (RIntro false [])) = true.
+Proof. vm_compute. split; reflexivity. Qed.
+(* ... and the answer of the server before fix 8607e8e (active) is a property failure OUTSIDE the
+   known class, and a disagreement with the model *)
+Example C39_witness_case_k2_prefix :
+  pcheck (w_case_k2 (RIntro true [0])) = false /\ known (w_case_k2 (RIntro true [0])) = false /\
+  agree (w_case_k2 (RIntro true [0])) = false.
 Proof. vm_compute. repeat split; reflexivity. Qed.
 
 (* K1 as a case: exchange and first refresh in second 10010; the rotated token works again at 10050 *)
